@@ -392,6 +392,15 @@ pub fn run(tier: &str, seed: u64) -> i32 {
         }
     });
     report.add(st);
+    // three instantiations of a one-field definition, every order (beyond the quick tier's depth)
+    let slice = three_inst_slice(false);
+    report.add(sweep(
+        "D-generic slice: one field x three instantiations in every order, the parameter or associated type three levels down x two and three instantiations, and definitions with three parameters (<= 2 fields, <= 2 instantiations)",
+        &slice,
+        Duration::from_secs(120),
+        |s| json!({"program": s.program().to_source()}),
+        |s, ctx| check_state(s, &settings[0].1, ctx),
+    ));
     report.assumptions = vec![
         "source programs are the SPM programs of driver D-generic; their registries come from the elaborator (conformance-checked against real scale-info)".into(),
         "the expected emitted form of a source type is computed by an independent printer (families::Expect) implementing the documented normalisations".into(),
@@ -443,6 +452,7 @@ pub fn state_of_program(prog: &Program) -> Option<GenState> {
                 ParamForm::One
             }
         }
+        (3, _, _) => ParamForm::Three,
         (2, _, Some(true)) => ParamForm::TwoSecondSkipped,
         (2, _, _) if def.params[0].name == "S" => ParamForm::BitsSO,
         (2, _, _) => ParamForm::Two,
